@@ -22,7 +22,7 @@ RULE = ("(index) enumeration: for n 1..10 EVERY row k of generate_hilbert_space(
         "with an independent str.split parse; extract_refbasis_samples vs my own row filter for any pattern incl. none/all. "
         "Non-trivial = (index) n >= 3, (positions) a non-palindromic tag, (files) >= 2 distinct bases incl. an all-Z row.")
 RULE_EXT = ('Extended as built: numpy integer / keyword argument forms, returned spaces edited in place three times (no shared cache), default max_size of a 21-qubit model, files rewritten at the same paths, tiny entries, D in {2,4,8,16}.')
-RULE_EXT += ' Round 10 (after an exception / long time axis): sub-check history: 3-30 requests on one object (spaces of size 1-9 in sweeps, single vectors of size 1-30, refused sizes 21-30 followed by single vectors of that size, defaults of 22- and 24-site registers).'
+RULE_EXT += ' Round 10 (after an exception / long time axis): sub-check history: 3-30 requests on one object (spaces of size 1-9 in sweeps, single vectors of size 1-30, refused sizes (limit+1..limit+7) followed by single vectors of that size, defaults of registers beyond the limit - for registers of 6 and 7 sites a state subclass whose max_size property is 5 is used, so that a refusal that is not given costs a 128-row space and not gigabytes).'
 RULE = RULE + " " + RULE_EXT
 ASSUMPTIONS = ["targets compared with the written number rounded to float32, to 0.02 float32 ulp (documented single precision)",
                "single-row / single-column files are not generated (np.loadtxt squeezes them; the property speaks of contents)"]
@@ -113,7 +113,8 @@ def check_index(c):
 def index_histories(draw, tier):
     """histories of enumeration requests on ONE state object: many distinct sizes (more than any small cache would hold), repeats of
     earlier sizes, refused sizes (caught) followed by single-vector requests of that size, defaults of a register beyond the limit"""
-    own = draw(st.sampled_from([2, 3, 5, 22, 24]))
+    own = draw(st.sampled_from([2, 3, 5, 6, 7]))          # 6 and 7: a state class whose size limit is 5 (the limit is a property a subclass may lower), so that a
+                                                           # refusal that is NOT given costs a 2^7-row space and not gigabytes
     ops = []
     for _ in range(draw(st.integers(3, 30))):
         k = draw(st.sampled_from(["space", "space", "vector", "vector", "refused", "default_space", "default_vector", "sweep"]))
@@ -123,7 +124,7 @@ def index_histories(draw, tier):
             m = draw(st.integers(1, 30))
             ops.append(["vector", draw(st.integers(0, 2 ** m - 1)), m])
         elif k == "refused":
-            ops.append(["refused", draw(st.integers(21, 30))])
+            ops.append(["refused", draw(st.integers(1, 7))])          # size = the state's limit + this
         elif k == "default_vector":
             ops.append(["default_vector", draw(st.integers(0, 2 ** own - 1))])
         elif k == "sweep":
@@ -139,21 +140,29 @@ def index_histories(draw, tier):
 def check_history(c):
     from qucumber.nn_states import ComplexWaveFunction, DensityMatrix, PositiveWaveFunction
     own = c["own"]
-    state = {"positive": lambda: PositiveWaveFunction(own, 1, gpu=False), "complex": lambda: ComplexWaveFunction(own, 1, gpu=False),
-             "density": lambda: DensityMatrix(own, 1, 1, gpu=False)}[c["type"]]()
+    base_cls = {"positive": PositiveWaveFunction, "complex": ComplexWaveFunction, "density": DensityMatrix}[c["type"]]
+    if own >= 6:
+        class SmallLimit(base_cls):
+            @property
+            def max_size(self):
+                return 5
+        base_cls = SmallLimit
+    state = base_cls(own, 1, gpu=False) if c["type"] != "density" else base_cls(own, 1, 1, gpu=False)
     ms = state.max_size
     sizes, refused = set(), 0
     for i, op in enumerate(c["ops"]):
         what = f"step {i} {op} of a history of enumeration requests on one object"
-        if op[0] == "space" or (op[0] == "default_space" and own <= ms):
+        if (op[0] == "space" and op[1] <= ms) or (op[0] == "default_space" and own <= ms):
             m = op[1] if op[0] == "space" else own
             sp = state.generate_hilbert_space(m) if op[0] == "space" else state.generate_hilbert_space()
             ks = torch.arange(2 ** m)
             want = torch.stack([(ks >> (m - 1 - j)) & 1 for j in range(m)], dim=1).double()
             require(sp.shape == want.shape and torch.equal(sp, want), "history:space-row", f"{what}: the returned space is not the big-endian enumeration of size {m}")
             sizes.add(m)
-        elif op[0] in ("refused", "default_space"):
-            m = op[1] if op[0] == "refused" else own
+        elif op[0] in ("refused", "default_space", "space"):
+            m = (ms + op[1] if op[0] == "refused" else op[1]) if op[0] != "default_space" else own
+            if op[0] == "space":
+                op = ["refused", m]
             if op[0] == "refused":
                 expect_raises(ValueError, lambda: state.generate_hilbert_space(m), "history:max_size:not-refused", f"{what}: size {m} beyond max_size {ms}")
             else:
